@@ -4,7 +4,9 @@ import (
 	"bytes"
 	"context"
 	"fmt"
+	"io"
 	"strings"
+	"sync/atomic"
 	"time"
 
 	"nhooyr.io/websocket"
@@ -22,6 +24,8 @@ type c02Op struct {
 	Size    int      `json:"size,omitempty"`
 	Content string   `json:"content,omitempty"`
 	Chunk   chunking `json:"chunking,omitempty"`
+	// PingInside makes the writing goroutine call Ping between the chunks of a streamed message.
+	PingInside bool `json:"ping_inside,omitempty"`
 }
 
 type c02Desc struct {
@@ -42,6 +46,7 @@ func init() {
 		Rule: "cases = API programs (Write / Writer with a chunking / Ping, then Close(code, reason)) run by one goroutine on a library endpoint of either role under each negotiated (client_no_context_takeover, server_no_context_takeover) agreement and threshold; " +
 			"the raw peer feeds every emitted byte to the independent Conform monitor. distinct key = (role, agreement, threshold class, op kind, size class, chunking, content kind, compressed-on-the-wire?)",
 		Gen:         c02Gen,
+		ChildSetup:  c02Setup,
 		CaseTimeout: 120 * time.Second,
 		Require: func(tier string) map[string]int64 {
 			return map[string]int64{"frames_parsed": 5000, "messages_reconstructed": 2000, "compressed_messages_inflated": 300, "close_frames_checked": 100, "masked_frames": 1000}
@@ -51,6 +56,23 @@ func init() {
 			"one writer goroutine per connection so the expected message sequence is exact (concurrency is C05)",
 			"frames following the first Close frame are C16's subject and are not judged here",
 		},
+	})
+}
+
+// frame counter fed by the writeFrame hook, for the "hunt" op
+var (
+	c02FrameTarget atomic.Value // *websocket.Conn
+	c02FrameCount  atomic.Int64
+)
+
+func c02Setup() {
+	installPointHooks(false)
+	pointSink.Store(func(c *websocket.Conn, name string) {
+		if name == "writeFrame.header" {
+			if t, _ := c02FrameTarget.Load().(*websocket.Conn); t == c && c != nil {
+				c02FrameCount.Add(1)
+			}
+		}
 	})
 }
 
@@ -83,8 +105,23 @@ func c02Gen(tier string, seed int64) []fw.Case {
 				if op.Chunk.Kind == "close-only" {
 					op.Size = 0
 				}
+				op.PingInside = rng.Intn(4) == 0 && op.Chunk.Kind != "bytes"
+				if op.PingInside && rng.Bool() {
+					// large, poorly compressible chunks make the compressor emit frames between the pings
+					// (the compressor emits a frame per 64 KiB of input: a first chunk just above that puts exactly
+					// the first frame of the message on the wire before the Ping)
+					op.Size = []int{40000, 66000, 70000, 131072, 140000}[rng.Intn(5)]
+					op.Content = []string{"random", "mixed", "zeros", "text"}[rng.Intn(4)]
+					op.Chunk = []chunking{{"one", 0}, {"fixed", 4096}, {"random", 0}, {"fixed", 66000}, {"fixed", 65536}}[rng.Intn(5)]
+				}
 			default:
 				op.Kind = "ping"
+				if rng.Intn(3) == 0 {
+					// stream a message and put a control frame right behind its first frame
+					op.Kind = "hunt"
+					op.Content = []string{"zeros", "text"}[rng.Intn(2)]
+					op.Chunk = chunking{Kind: []string{"ping", "peer-ping"}[rng.Intn(2)]}
+				}
 			}
 			d.Ops = append(d.Ops, op)
 		}
@@ -147,6 +184,73 @@ func c02Run(r *fw.R, d c02Desc, tier string) {
 	r.SetSample(d)
 	for i, op := range d.Ops {
 		switch op.Kind {
+		case "hunt":
+			// Stream messages of tuned entropy until the compressor has handed exactly ONE data frame of a
+			// message to the connection (counted at the writeFrame hook), then have a control frame written
+			// right behind it: Ping by us, or the Pong for a peer Ping.
+			hit := false
+			for attempt, rnd := range []int{90, 60, 130, 40, 180, 25, 250, 0} {
+				if hit {
+					break
+				}
+				w, err := c.Writer(ctx, websocket.MessageBinary)
+				if err != nil {
+					r.Violate("C02/write-failed", fmt.Sprintf("op %d: Writer: %v", i, err), "")
+					return
+				}
+				c02FrameTarget.Store(c)
+				c02FrameCount.Store(0)
+				var msg []byte
+				for k := 0; k < 4 && !hit; k++ {
+					chunk := make([]byte, 65536)
+					if op.Content == "text" {
+						for j := range chunk {
+							chunk[j] = "ab"[j/2048%2]
+						}
+					}
+					for j := 0; j < rnd; j++ {
+						chunk[rng.Intn(len(chunk))] = byte(rng.Intn(256))
+					}
+					if _, err := w.Write(chunk); err != nil {
+						r.Violate("C02/write-failed", fmt.Sprintf("op %d: hunt write: %v", i, err), "")
+						return
+					}
+					msg = append(msg, chunk...)
+					n := c02FrameCount.Load()
+					if n > 1 {
+						break // overshot: next attempt with another entropy
+					}
+					if n == 1 {
+						hit = true
+						if op.Chunk.Kind == "ping" {
+							pctx, pc := context.WithTimeout(ctx, 20*time.Second)
+							err := c.Ping(pctx)
+							pc()
+							if err != nil {
+								r.Violate("C02/ping-failed", fmt.Sprintf("op %d: Ping inside a streamed message failed: %v", i, err), "")
+								return
+							}
+							pings++
+						} else {
+							n0 := 0
+							peer.Locked(func() { n0 = len(peer.Conf.Pongs) })
+							peer.Send(wire.Ping([]byte("mid-message")))
+							if !peer.Wait(10*time.Second, func() bool { return len(peer.Conf.Pongs) > n0 }) {
+								r.Violate("C02/pong-missing", fmt.Sprintf("op %d: no Pong for a Ping sent while a message is being streamed", i), "")
+								return
+							}
+						}
+						r.Count("control_frame_right_after_first_frame", 1)
+						r.Key("%s/%s/control-after-first-frame/%s/attempt=%d", d.Role, paramsKey(d.Params), op.Chunk.Kind, attempt)
+					}
+				}
+				c02FrameTarget.Store((*websocket.Conn)(nil))
+				if err := w.Close(); err != nil {
+					r.Violate("C02/write-failed", fmt.Sprintf("op %d: hunt close: %v", i, err), "")
+					return
+				}
+				sent = append(sent, sentMsg{typ: wire.OpBinary, data: msg, op: op})
+			}
 		case "ping":
 			pctx, pc := context.WithTimeout(ctx, 20*time.Second)
 			err := c.Ping(pctx)
@@ -171,7 +275,35 @@ func c02Run(r *fw.R, d c02Desc, tier string) {
 				hist[rng.Intn(8)] = payload
 			}
 			cuts := op.Chunk.cuts(rng, op.Size)
-			mod, err := writeMessage(ctx, c, msgType(op.Text), payload, op.Kind == "writer", cuts)
+			var mod string
+			var err error
+			if op.PingInside && op.Kind == "writer" {
+				// control frames between the frames of one message
+				var w io.WriteCloser
+				w, err = c.Writer(ctx, msgType(op.Text))
+				off := 0
+				for k, n := range cuts {
+					if err != nil {
+						break
+					}
+					_, err = w.Write(payload[off : off+n])
+					off += n
+					if err == nil && (k < 3 || k%16 == 0) {
+						pctx, pc := context.WithTimeout(ctx, 20*time.Second)
+						err = c.Ping(pctx)
+						pc()
+						if err == nil {
+							pings++
+						}
+					}
+				}
+				if err == nil {
+					err = w.Close()
+				}
+				r.Key("%s/%s/ping-inside-writer/%s", d.Role, paramsKey(d.Params), op.Chunk.Kind)
+			} else {
+				mod, err = writeMessage(ctx, c, msgType(op.Text), payload, op.Kind == "writer", cuts)
+			}
 			if mod != "" {
 				r.Violate("C02/caller-buffer-modified", fmt.Sprintf("op %d (%+v): %s", i, op, mod), "")
 			}
